@@ -206,12 +206,24 @@ def run(ctx):
     ctx.count(len(dl2) + len(dp) + len(dp2))
     date_diff = [(l, a, b) for l, a, b in zip(dl2 + dp + dp2, di2 + di3, dm2 + dm3) if a != b]
     date_rt_bad = [(l, a) for l, a, t in zip(dp2, di3, [int(x.split("\t")[1]) for x, r in zip(dl2, di2) if r.startswith("some")]) if not a.startswith("some\t%d\t" % t)]
+    # ---- MIME-Version and Content-Transfer-Encoding against their Coq models (Model/TypedHeaders.v): every string a field value could hold
+    mvs = ["%d.%d" % (a, b) for a in (0, 1, 9, 10, 99, 100, 199, 200, 255, 256, 300, 999, 1000) for b in (0, 7, 10, 100, 255, 256)]
+    mvs += ["", ".", "1", "1.", ".0", "1.0.9", "1..0", "+1.0", "1.+0", "++1.0", "-1.0", "1.-0", "-0.0", "+.0", "+", "-", "01.00", "001.000", "0001.0", " 1.0", "1.0 ", "1 .0", "1. 0", "1,0", "1.0\r\n", "１.0", "1.٠", "1.0a", "a.b", "0x1.0",
+            "1e0.0", "255.255", "256.256", "00255.0255", "1.0.", ".1.0", "1.0..", "\t1.0", "1.0 (comment)", "1.0;x", "1" * 40 + ".0", "1." + "0" * 40, "+0.+0", "+255.+255", "+256.0"]
+    for _ in range(300 if ctx.tier == "quick" else 6000):
+        mvs.append("".join(rng.choice("0123456789.+- ") for _ in range(rng.randint(1, 8))))
+    ctes = ["7bit", "8bit", "binary", "base64", "quoted-printable", "7BIT", "Base64", "Quoted-Printable", " 7bit", "7bit ", "7bit\r\n", "", "7 bit", "7bit;", "base-64", "x-token", "8bitx", "binary\x00", "quoted-printable ", "BINARY"]
+    tyl = ["mv.parse\t" + hx(U(x)) for x in mvs] + ["cte.parse\t" + hx(U(x)) for x in ctes]
+    tyi, tym = run_impl(tyl), run_model(tyl)
+    ctx.count(len(tyl))
+    ty_diff = [(l, a, b) for l, a, b in zip(tyl, tyi, tym) if a != b]
     ti = run_impl(tl)
     ctx.count(len(tl))
     tbad = [(l, r) for l, r in zip(tl, ti) if not (r == "eq" or r.startswith("eq\tzone-ok"))]
     ctx.cov["correspondence"] = {"mbox.parse/mboxes.parse": {"cases": 2 * len(strs), "exhaustive_alphabet": "a 1 @ \" \\ . < > SP , U+00E9 TAB", "exhaustive_maxlen": maxlen, "exhaustive_count": n_exh, "disagreements": len(diffs)},
                                  "mbox.display": {"cases": len(dl), "disagreements": len(ddiff)}, "mboxes.display": {"cases": len(ll), "disagreements": len(ldiff)},
                                  "hdrs.ops": {"sequences": len(ol), "disagreements": len(odiff)},
+                                 "mv.parse/cte.parse": {"cases": len(tyl), "accepted": sum(1 for x in tyi if x.startswith("some")), "disagreements": len(ty_diff)},
                                  "date.display/date.parse": {"display": len(dl2), "parse_hostile": len(dp), "parse_of_displayed": len(dp2), "parsed_ok": sum(1 for x in di2[len(dl2):] if x.startswith("some")), "disagreements": len(date_diff)}}
     ctx.cov.setdefault("oracle_serde", {"serde_tied_to_display_and_fromstr": {"cases": len(sl), "failures": len(ser_bad)}})
     ctx.cov["oracle"] = {"display_then_parse_on_impl": {"mailboxes": len(cases), "lists": len(lists), "unexplained": len(unexpl), "known_class_hits": dict(hits)},
@@ -232,6 +244,9 @@ def run(ctx):
         ctx.violation({"kind": "oracle", "entry": "header map: set / get / remove", "line": ops_bad[0][0][:1500], "what": ops_bad[0][1], "failures": len(ops_bad)})
     if date_rt_bad:
         ctx.violation({"kind": "oracle", "entry": "Date displayed and parsed again", "line": date_rt_bad[0][0], "impl": date_rt_bad[0][1][:200], "failures": len(date_rt_bad)})
+    if ty_diff and not ctx.violations:
+        l, a, b = ty_diff[0]
+        ctx.violation({"kind": "correspondence", "line": l[:300], "impl": a[:200], "model": b[:200], "disagreements": len(ty_diff)}, nofail=True)
     if date_diff and not ctx.violations:
         l, a, b = date_diff[0]
         ctx.violation({"kind": "correspondence", "line": l[:300], "impl": a[:200], "model": b[:200], "disagreements": len(date_diff)}, nofail=True)
